@@ -34,6 +34,11 @@ pub fn sets(thorough: bool) -> Vec<(String, Vec<[u8; 32]>)> {
     out.push(("nine-spread".into(), (0..9u8).map(|i| [i.wrapping_mul(29); 32]).collect()));
     out.push(("duplicates".into(), vec![[1; 32], [2; 32], [1; 32], [2; 32], [3; 32]]));
     out.push(("dense-low-bits".into(), (0..8u8).map(|i| { let mut v = [0u8; 32]; v[31] = i; v }).collect()));
+    // the comb: the all-zero leaf and, for every bit, the leaf with only that bit set - the deepest path there is (256 levels)
+    // with a hash-bearing sibling on every level, i.e. the largest proofs an honest tree can issue (8 737 bytes)
+    out.push(("comb-256".into(), std::iter::once([0u8; 32]).chain((0..256usize).map(|i| { let mut v = [0u8; 32]; v[i / 8] |= 0x80 >> (i % 8); v })).collect()));
+    // and its mirror image (all ones, one bit cleared)
+    out.push(("comb-256-ones".into(), std::iter::once([0xffu8; 32]).chain((0..256usize).map(|i| { let mut v = [0xffu8; 32]; v[i / 8] &= !(0x80 >> (i % 8)); v })).collect()));
     if thorough {
         // seeded random sets: sizes 2..40, leaves drawn with random shared prefixes
         let mut rng = crate::rng::Rng::new(0xc12_5eed);
@@ -103,7 +108,8 @@ pub fn check_set(name: &str, leafs: &[[u8; 32]]) -> (u64, Vec<(String, String)>)
     n += 1;
     if compute_merkle_set_root(&mut l2) != root { fails.push((format!("{name}/order"), "root depends on the order of the leaves".into())); }
     // items to prove: every member, plus non-members near the members (one bit flipped at several positions) and far ones
-    let mut items: Vec<[u8; 32]> = leafs.to_vec();
+    // (of a large set only some members are proved: the first, the deepest ones and a spread)
+    let mut items: Vec<[u8; 32]> = if leafs.len() > 64 { let n = leafs.len(); [0, 1, 2, n / 2, n - 3, n - 2, n - 1].iter().map(|i| leafs[*i]).collect() } else { leafs.to_vec() };
     for m in leafs.iter().take(3) {
         for bit in [0usize, 7, 8, 100, 255] {
             let mut v = *m; v[bit / 8] ^= 0x80 >> (bit % 8);
@@ -122,7 +128,8 @@ pub fn check_set(name: &str, leafs: &[[u8; 32]]) -> (u64, Vec<(String, String)>)
         }
         // soundness probes: single-place corruptions must never flip the verdict for this root
         let mut probes: Vec<(String, Vec<u8>)> = vec![];
-        for pos in 0..proof.len() {
+        let stride = if proof.len() > 2000 { 61 } else { 1 };
+        for pos in (0..proof.len()).step_by(stride) {
             let mut p = proof.clone(); p[pos] ^= 0x01; probes.push((format!("flip-low-bit@{pos}"), p));
             if proof.len() <= 200 { let mut p = proof.clone(); p[pos] ^= 0x80; probes.push((format!("flip-high-bit@{pos}"), p)); }
         }
